@@ -28,7 +28,7 @@ def run_cases(ctx, factor, feats, quick, thorough, scan=True, rule_fn=None, tagg
         if tagger:
             tags += tagger(doc)
         rep.case(patdiff.case_of(o), usable, tags=tags)
-        if rep.violations and factor > 1:
+        if rep.has_new() and factor > 1:
             return
 
 
